@@ -10,9 +10,11 @@ structure FlushedOk (pre : St) (b : Nat) (clear : Bool) (post : St) (evs : List 
   items : post.bitems b = if clear && !pre.keep then [] else pre.bitems b
   user : pre.kind = .user →
     post.runs b = 1 ∧ evs.head? = some (.body b post.active) ∧ (evs.filter Ev.isBody).length = 1 ∧
-    ∃ r, evs.filterMap Ev.bodyEnd? = [(b, r, none)] ∧ post.bout b = some (bodyOutc r)
+    (∃ r, evs.filterMap Ev.bodyEnd? = [(b, r, none)] ∧ post.bout b = some (bodyOutc r)) ∧
+    libBeforeEnd evs = false
   debug : pre.kind = .debug →
-    evs.any Ev.isBodyEv = false ∧ (post.bout b = some (.val 0) ∨ post.bout b = some (.err .already))
+    evs.any Ev.isBodyEv = false ∧
+    (post.bout b = some (.val 0) ∨ (post.bout b = some (.err .already) ∧ alreadyCause pre b evs = true))
 
 /-- what the observer demands of an operation that has to cancel the pending batch `b` with error `x` -/
 structure CancelledOk (pre : St) (b : Nat) (x : Err) (post : St) (evs : List Ev) : Prop where
@@ -39,8 +41,9 @@ theorem flushedOk_of_fateClause {pre : St} {ob : Obs} {b : Nat} {clear : Bool}
     have r1 := hbody (_, "flush-runs-body-once") (Or.inl rfl)
     have r2 := hbody (_, "flush-runs-body-once") (Or.inr (Or.inl rfl))
     have r3 := hbody (_, "flush-runs-body-once") (Or.inr (Or.inr (Or.inl rfl)))
-    have r4 := hbody (_, "flush-outcome") (Or.inr (Or.inr (Or.inr rfl)))
-    refine ⟨by simpa using r1, by simpa using r2, by simpa using r3, ?_⟩
+    have r4 := hbody (_, "flush-outcome") (Or.inr (Or.inr (Or.inr (Or.inl rfl))))
+    have r5 := hbody (_, "leftover-before-body-end") (Or.inr (Or.inr (Or.inr (Or.inr rfl))))
+    refine ⟨by simpa using r1, by simpa using r2, by simpa using r3, ?_, by simpa using r5⟩
     simp only at r4
     cases hl : ob.evs.filterMap Ev.bodyEnd? with
     | nil => simp [hl] at r4
